@@ -47,6 +47,14 @@ func (u *Universe) MethodSource(need map[string]bool) (string, map[string]bool) 
 			imps["fmt"] = true
 			fmt.Fprintf(&sb, "func (x %s) String() string { return fmt.Sprintf(\"<%s %%d>\", len(fmt.Sprintf(\"%%#v\", x))) }\n\n", t.Name, t.Name)
 		}
+		switch t.HashMethod {
+		case "custom":
+			imps["strings"] = true
+			fmt.Fprintf(&sb, "func (this *%s) Hash() uint64 {\n\tif this == nil {\n\t\treturn 7\n\t}\n\th := uint64(1469598103934665603)\n\tfor _, b := range []byte(strings.ToLower(this.Word)) {\n\t\th = (h ^ uint64(b)) * 1099511628211\n\t}\n\treturn h\n}\n\n", t.Name)
+		case "customv":
+			imps["strings"] = true
+			fmt.Fprintf(&sb, "func (this %s) Hash() uint64 {\n\th := uint64(1469598103934665603)\n\tfor _, b := range []byte(strings.ToLower(this.Word)) {\n\t\th = (h ^ uint64(b)) * 1099511628211\n\t}\n\treturn h\n}\n\n", t.Name)
+		}
 		if t.Under.K != KStruct {
 			continue
 		}
